@@ -26,3 +26,16 @@ Theorem C07_fresh_count_as_in_source : forall c lifo k s ops ctr1 ctr2, sites_ok
   same_report (lifetime c src_reset lifo k s ctr1 ops) (lifetime c src_reset lifo k s ctr2 ops).
 Proof. exact fresh_count. Qed.
 Print Assumptions C07_fresh_count_as_in_source.
+
+(* lifetimes of SEVERAL threads through one call site, every schedule: each thread's verifier reads exactly the number of calls
+   that thread made (Churn.v), for the order of steps FOUND IN THE SOURCE NOW (new() takes the guard, will_execute resets, the
+   guard is the last field dropped) *)
+From Inj Require Import Churn.
+Theorem C07_threads_every_verdict_is_its_own : forall v ks sched t n, src_variant = Some v ->
+  t_seen (thrs (Churn.run v ks sched) t) = Some n -> n = ks t.
+Proof. intros v ks sched t n E. rewrite src_variant_good in E. injection E as <-. apply every_verdict_is_its_own. Qed.
+Print Assumptions C07_threads_every_verdict_is_its_own.
+(* the order "reset first, take the guard when the first patch is written" is refuted: thread 1 makes one call and its verifier reads 2 *)
+Theorem C07_reset_before_lock_refuted : t_seen (thrs (Churn.run ResetBeforeLock one_each [0; 0; 1; 0; 0; 0; 1; 1; 1]%nat) 1%nat) = Some 2%nat.
+Proof. exact reset_before_lock_refuted. Qed.
+Print Assumptions C07_reset_before_lock_refuted.
